@@ -5,6 +5,7 @@ import SocVerif.Driver.ActD
 import SocVerif.Driver.EvD
 import SocVerif.Driver.RegD
 import SocVerif.Driver.SramD
+import SocVerif.Driver.ArbD
 
 def main (args : List String) : IO UInt32 := do
   match args with
@@ -16,4 +17,5 @@ def main (args : List String) : IO UInt32 := do
   | ["evmap"] => EvD.mainMap; return 0
   | ["reg"] => RegD.main; return 0
   | ["sram"] => SramD.main; return 0
+  | ["arbiter"] => ArbD.main; return 0
   | _ => IO.eprintln "usage: driver <mux|mmap|...>"; return 2
